@@ -79,7 +79,18 @@ func (h *History) project() State {
 		cs.SendQ, cs.RecvQ, cs.MaxSend, cs.MaxRecv = int(a), int(b), int(c), int(d)
 		cs.PidCur = int(cl.VerifPacketID())
 		cs.OutQ = int(cl.VerifOutboundQty())
-		cs.OutBuf = cl.VerifOutbufLen()
+		// the write buffer is guarded by the client's lock, which the write loop holds while it is blocked on a peer
+		// that has stopped reading: not read then (-1)
+		cs.OutBuf = -1
+		stalled := false
+		if cl.Net.Conn != nil {
+			if v, ok := registry.Load(cl.Net.Conn); ok && v.(*conn).stalled {
+				stalled = true
+			}
+		}
+		if !stalled {
+			cs.OutBuf = cl.VerifOutbufLen()
+		}
 		cs.WillFlag = cl.Properties.Will.Flag != 0
 		in, out := cl.VerifAliases()
 		ok := make([]string, 0, len(out))
